@@ -63,6 +63,7 @@ func main() {
 	var ios multi
 	flag.Var(&ios, "io", "pkgSuffix:import=replacement,...")
 	skip := flag.String("skip", "", "comma separated package path substrings that are not rewritten")
+	withTests := flag.Bool("tests", false, "also rewrite _test.go files (fidelity self-test: the repository's own tests run on the rewritten copy)")
 	flag.Parse()
 	var rules []ioRule
 	for _, spec := range ios {
@@ -82,12 +83,21 @@ func main() {
 	}
 	cfg := &packages.Config{
 		Mode: packages.NeedName | packages.NeedFiles | packages.NeedSyntax | packages.NeedTypes | packages.NeedTypesInfo | packages.NeedImports | packages.NeedDeps | packages.NeedCompiledGoFiles,
-		Dir:  *dir,
+		Dir:   *dir,
+		Tests: *withTests,
 	}
 	pkgs, err := packages.Load(cfg, flag.Args()...)
 	if err != nil {
 		fatal(err.Error())
 	}
+	if *withTests {
+		// a file belongs to the plain package and to its test variant: rewrite it once, with the
+		// type information of the variant that also holds the test files
+		sort.SliceStable(pkgs, func(i, j int) bool {
+			return strings.Contains(pkgs[i].ID, "[") && !strings.Contains(pkgs[j].ID, "[")
+		})
+	}
+	done := map[string]bool{}
 	stats := map[string]int{}
 	var skips []string
 	if *skip != "" {
@@ -107,9 +117,13 @@ pkgLoop:
 		}
 		for i, f := range p.Syntax {
 			fname := p.CompiledGoFiles[i]
-			if !strings.HasSuffix(fname, ".go") || strings.HasSuffix(fname, "_test.go") {
+			if !strings.HasSuffix(fname, ".go") || (strings.HasSuffix(fname, "_test.go") && !*withTests) || !strings.HasPrefix(fname, *dir) {
 				continue
 			}
+			if done[fname] {
+				continue
+			}
+			done[fname] = true
 			if len(f.Comments) > 0 && strings.HasPrefix(f.Comments[0].List[0].Text, "//simgen:skip") {
 				continue
 			}
